@@ -12,6 +12,7 @@ import (
 	"github.com/bbva/qed/balloon"
 	"github.com/bbva/qed/crypto"
 	"github.com/bbva/qed/crypto/hashing"
+	"github.com/bbva/qed/gossip"
 	"github.com/bbva/qed/protocol"
 	"github.com/bbva/qed/server"
 	"qedverif/cq"
@@ -79,6 +80,10 @@ func serverCmd(out *cq.Out, seed uint64, tier string) {
 			out.Violate("C08:server-does-not-restart", fmt.Sprintf("the server stopped cleanly after %d events cannot be created again on its directories: %v %s", len(events), serr, msg), desc)
 			return
 		}
+		// what the server's sender publishes for gossip (the server has no peers: it must publish all the same)
+		col := &batchCollector{}
+		s.VAgent().Out.Subscribe(gossip.BatchMessageType, col, 1<<16)
+		issuedBefore := len(snaps)
 		started := false
 		if !withTimeout(60*time.Second, func() {
 			if p, msg := cq.Catch(func() { serr = s.Start() }); p {
@@ -186,7 +191,58 @@ func serverCmd(out *cq.Out, seed uint64, tier string) {
 			}
 		}
 		hist = append(hist, fmt.Sprintf("life %d: %d events acknowledged in total", life, len(events)))
+		// C17 at the level of the running server: every snapshot issued in this life is published once, signed
+		{
+			want := len(snaps) - issuedBefore
+			bs, undec := collectBatches(col, want, 3*time.Second)
+			seen := map[uint64]int{}
+			for _, b := range bs {
+				for _, ss := range b.Snapshots {
+					seen[ss.Snapshot.Version]++
+				}
+			}
+			lost, dup := 0, 0
+			for v := issuedBefore; v < len(snaps); v++ {
+				switch c := seen[uint64(v)]; {
+				case c == 0:
+					lost++
+				case c > 1:
+					dup++
+				}
+			}
+			if lost > 0 || dup > 0 || undec > 0 {
+				out.Violate("C17:snapshot-lost:server", fmt.Sprintf("a stand-alone server issued %d snapshots in this life; its sender published %d of them (%d more than once, %d undecodable batches) within 3 s", want, want-lost, dup, undec), desc)
+			}
+			out.Count("server_snapshots_published", want-lost)
+		}
 		out.Note(desc)
+		if tier == "thorough" && life == 1 {
+			// more events than the snapshots channel holds (65 536): insertions must keep being answered
+			for k := 0; k < 9; k++ {
+				var evs [][]byte
+				for j := 0; j < 8192; j++ {
+					evs = append(evs, []byte(fmt.Sprintf("vol-%d-%d-%d", seed, k, j)))
+				}
+				st, body, err := post("/events/bulk", protocol.EventsBulk{Events: evs})
+				var sns []*balloon.Snapshot
+				if err != nil || st != 201 || json.Unmarshal(body, &sns) != nil || len(sns) != len(evs) {
+					out.Violate("C11:server-wedged-or-wrong-after-request", fmt.Sprintf("bulk %d of 8192 events (after %d events) got no proper answer: status %d, %v", k, len(events), st, err), desc)
+					break
+				}
+				events, snaps = append(events, evs...), append(snaps, sns...)
+			}
+			for k := 0; k < 3; k++ {
+				ev := []byte(fmt.Sprintf("after-volume-%d", k))
+				st, body, err := post("/events", protocol.Event{Event: ev})
+				var sn balloon.Snapshot
+				if err != nil || st != 201 || json.Unmarshal(body, &sn) != nil {
+					out.Violate("C11:server-wedged-or-wrong-after-request", fmt.Sprintf("after %d events on a stand-alone server a valid insertion gets no answer: status %d, %v", len(events), st, err), desc)
+					break
+				}
+				events, snaps = append(events, ev), append(snaps, &sn)
+			}
+			hist = append(hist, fmt.Sprintf("life %d: volume phase, %d events", life, len(events)))
+		}
 		// Stop must complete, whatever the sender and the agent are doing
 		if rng.Intn(2) == 0 {
 			time.Sleep(time.Duration(rng.Intn(150)) * time.Millisecond)
